@@ -118,8 +118,13 @@ func c14r1(c *an.Ctx) {
 			return
 		}
 		for _, g := range an.GuardsOf(in.Block()) {
-			if b, isB := g.Cond.(*ssa.BinOp); isB && !g.True && (b.Op == token.GEQ || b.Op == token.GTR) && lenOperand(b.X) != nil {
-				if k, isK := an.ConstInt(b.Y); isK && k == maxSize {
+			if cmp, ok := an.CmpOf(g); ok {
+				isLen := func(v ssa.Value) bool { return lenOperand(v) != nil }
+				isMax := func(v ssa.Value) bool {
+					k, isK := an.ConstInt(v)
+					return isK && k == maxSize
+				}
+				if cmp.Is(token.LSS, isLen, isMax) || cmp.Is(token.LEQ, isLen, isMax) {
 					okSend = true
 				}
 			}
